@@ -119,34 +119,31 @@ def sig(t, opts):
         if opts.get('truncate_strings') and tt in T.String.Single: v = "'"
         out.append((str(tt), v.upper() if (tt in T.Keyword or opts.get('identifier_case') or opts.get('keyword_case')) else v))
     return out
-def later_ok():
-    # an ordinary, moderately nested script with the interpreter's default limit
-    t = 'select a, (select max(b) from (select c from (select d from t where x in (1, (2))) u) v), case when f(g(h(1))) then (((1))) end from w where a = [1]; select 2'
-    r = sqlparse.parse(t)
-    return (len(r) == 2 and ''.join(str(s) for s in r) == t and all(wf(s) for s in r)
-            and sqlparse.split('select 1; select 2') == ['select 1;', 'select 2'] and sqlparse.format('select a from b', reindent=True) == 'select a\nfrom b'
-            and sig(sqlparse.format(t, reindent=True, strip_comments=True, use_space_around_operators=True), {}) == sig(t, {}))
 ORDINARY = ['select a, (select max(b) from (select c from (select d from t where x in (1, (2))) u) v), case when f(g(h(1))) then (((1))) end from w where a = [1]; select 2',
             'select foo(bar(x), 1) y, t1.c from t1 x, (select c from t2 where d = 1 order by c) z where x.k = z.k -- c\n group by 1',
             'select a, b from t', 'create procedure p() begin if a then update t set b = f(c) where d > 1; end if; end']
-def snapshot(full=True):
-    # what ordinary calls give: the trees (classes and nesting) of all four scripts, the pieces and three formattings; not full: the trees of two of them
-    if not full:
-        return [shape(sqlparse.parse(t)) for t in ORDINARY[1:3]]
+def snapshot():
+    # what ordinary calls give: the trees (classes and nesting), the pieces and three formattings
     return [(shape(sqlparse.parse(t)), sqlparse.split(t), sqlparse.format(t, reindent=True), sqlparse.format(t, reindent_aligned=True, keyword_case='upper'),
              sqlparse.format(t, strip_comments=True, use_space_around_operators=True)) for t in ORDINARY]
 BEFORE = snapshot()        # at the start of the process, before any pathological call
-_later_ok = later_ok
 _calls = [0]
 def later_ok(full=None):
-    r = _later_ok()
+    # an ordinary, moderately nested script with the interpreter's default limit
+    t = ORDINARY[0]
+    r = sqlparse.parse(t)
+    ok = (len(r) == 2 and ''.join(str(s) for s in r) == t and all(wf(s) for s in r)
+          and sqlparse.split('select 1; select 2') == ['select 1;', 'select 2'] and sqlparse.format('select a from b', reindent=True) == 'select a\nfrom b'
+          and sig(sqlparse.format(t, reindent=True, strip_comments=True, use_space_around_operators=True), {}) == sig(t, {}))
     _calls[0] += 1
-    if full is None:
-        full = _calls[0] %% 12 == 0          # two of the trees after every case, everything after every twelfth case and after the soak
-    if r is True and (snapshot() != BEFORE if full else snapshot(False) != [b[0] for b in BEFORE[1:3]]):
-        # history: an ordinary call after the failures of this process must give what the same call gave before them
-        return 'ordinary calls give different results than before the pathological calls of this process'
-    return r
+    if ok is True:
+        # history: an ordinary call after the failures of this process must give what the same call gave before them — after every case the trees of the
+        # script above and of `select a, b from t`, after every sixteenth case and after the soak everything (four scripts: trees, pieces, three formattings)
+        if full is None:
+            full = _calls[0] %% 16 == 0
+        if not (snapshot() == BEFORE if full else shape(r) == BEFORE[0][0] and shape(sqlparse.parse(ORDINARY[2])) == BEFORE[2][0]):
+            return 'ordinary calls give different results than before the pathological calls of this process'
+    return ok
 out = []
 for kind, depth, limit, entry, opts in cases:
     text = build(kind, depth)
